@@ -135,6 +135,24 @@ theorem refit_idempotent (hW : WellStaged P Fn) (hL : Legal P Fn d init) {s : St
   simp only [step]
   rw [hfp s hx, hfp _ (by rw [h1]; exact hx), hfix, h1]
 
+/-- **No stale predictor.** `process_inference(build_predict=False)` drops whatever predictor the estimator holds — for ANY
+    state, in particular one whose latent vector was set by hand — so the next lazy access to `predict` builds the
+    predictor from the current latent state and fitted values (repaired defect a939bd9: the old predictor used to
+    survive and `predict` evaluated it). -/
+theorem process_drops_predictor (s : State Attr V) {p : V} (hp : s.pre = some p)
+    (hpost : allSet P.postReads s.cache = true) :
+    (step P Fn s (.process false)).1 = .ok ∧
+    (step P Fn s (.process false)).2.predictor = none ∧
+    (step P Fn s (.process false)).2.fitted = some (Fn.post (view P.postReads s.cache) p) ∧
+    step P Fn (step P Fn s (.process false)).2 .predict
+      = buildPredictor P Fn (step P Fn s (.process false)).2 := by
+  have h : doProcess P Fn s false
+      = (.ok, { s with fitted := some (Fn.post (view P.postReads s.cache) p), predictor := none }) := by
+    unfold doProcess
+    rw [hp]
+    simp only [hpost, if_true, Bool.false_eq_true, if_false]
+  simp only [step, h, doPredict, true_and]
+
 /-- Lazy access to `predict` after `fit(build_predict=False)` / `fit_predict`: it succeeds and yields the
     predictor of one-shot fitting. -/
 theorem lazy_predict (hL : Legal P Fn d init) {s : State Attr V} (hI : Inv P Fn d init s)
